@@ -117,3 +117,12 @@ Check bound_external_called_exactly_once :
     exists o w', call_external_function I sw_now name nargs w = (o, w')
                  /\ w_events w' = w_events w ++ [EvExt name vs (w_lines w)].
 Print Assumptions bound_external_called_exactly_once.
+
+(* T-gen tie of the event-log theorems: the Rust engine calls into the host at exactly the places (and from exactly the
+   callers) where the model logs an event — regenerated from the sources on every run *)
+From Ink.Gen Require Import EngineGen.
+From Ink.Shell Require Import EventsTie.
+Theorem host_calls_are_where_the_model_logs_them : host_calls_confined = true.
+Proof. exact EventsTie.now_host_calls_confined. Qed.
+Check host_calls_are_where_the_model_logs_them : host_calls_confined = true.
+Print Assumptions host_calls_are_where_the_model_logs_them.
